@@ -442,7 +442,7 @@ func MergeMapCallSources(a, b MapCallSource) (MapCallSource, error) {
 				return nil, fmt.Errorf("map length mismatch %d vs %d",
 					len(ka), len(kb))
 			}
-			for k := range ka {
+			for _, k := range sortedKeys(ka) {
 				if _, ok := kb[k]; !ok {
 					return nil, fmt.Errorf("map key missing %q", k)
 				}
